@@ -259,7 +259,7 @@ def decide(pid, tier, seed):
     kani_cov = {}
     if pid == "C11":
         # Arena::get_node_id (raw pointers) is outside Verus: bounded Kani harnesses, labelled bounded
-        kr = P.kani_check()
+        kr = P.kani_check(tier)
         bad = [h for h in kr["harnesses"] if h["status"] == "error"]
         if bad:
             raise P.Undecided("Kani harness %s did not run: %s" % (bad[0]["name"], bad[0]["tail"][-300:]))
@@ -268,7 +268,9 @@ def decide(pid, tier, seed):
                 mine.append({"function": "Arena::get_node_id", "obligation": "bounded Kani harness %s (arenas of at most 3 slots)" % h["name"],
                              "props": ["C11"], "specific": True, "message": "Kani: VERIFICATION FAILED", "rendered": h["tail"]})
         kani_cov = {"bounded_checks": {"label": "BOUNDED, not counted as proved", "tool": "Kani 0.68 / CBMC", "bound": "arenas of 1..=3 slots, at most one removal and "
-                                       "one recycling, payload types u8 and u64", "harnesses": [{k: h[k] for k in ("name", "status", "checks")} for h in kr["harnesses"]],
+                                       "one recycling, payload types u8 and u64; quick tier: gni_fresh (debug build) + gni_small_recycled (fixed history, built without "
+                                       "debug assertions); thorough tier adds gni_full_recycled and runs all in a debug build",
+                                       "harnesses": [{k: h.get(k) for k in ("name", "status", "checks", "debug_assertions")} for h in kr["harnesses"]],
                                        "wall_s": kr["wall_s"], "what": "get_node_id(arena.get(id)) == Some(id) for fresh and recycled slots"}}
     mp_cov = {}
     if pid in ("C05", "C12"):
